@@ -13,7 +13,7 @@ ID = "C14"
 LEVEL = "exploration"
 TECHNIQUE = "shadow-registry oracle after every operation + icontract class invariant on Model"
 RULE = ("alphabet {create a, create b, create p (an agent whose initialize() creates a companion agent), a creation whose initialize() raises, a creation whose initialize() deletes the oldest agent of its own type, delete_agents(agent_ids(a)) with the model's own list, create_agents(a,2), delete oldest, delete newest, delete two ids, delete unknown id, "
-        "configure_agents, Model.configure(dictionary), reset, flip state}: ALL sequences of length<=3 (quick) / <=5 (thorough), plus 2500 / 8000 seeded random sequences "
+        "configure_agents, Model.configure(dictionary), reset, flip state, two transient agents that delete themselves in their reset_cache() hook when idle, Model.reset_cache()}: ALL sequences of length<=3 (quick) / <=4 (thorough), plus 2500 / 60000 seeded random sequences "
         "of length 10-40; after every operation agent(id) for every id ever issued, agent_ids/agent_count per type, "
         "agent_count_per_state and next_agent per (type,state), random_agents. distinct_nontrivial = distinct operation "
         "sequences that contain at least one deletion/reconfiguration followed by a query on a non-empty population.")
@@ -21,19 +21,20 @@ ASSUMPTIONS = ["agent_ids order is not judged (compared as multisets)", "models 
 REQUIRED = {"queries": 10000, "invariant_evaluations": 1000}
 BUDGET_S = {"quick": 100, "thorough": 1200}
 
-OPS = ["create_a", "create_b", "create_a2", "del_oldest", "del_newest", "del_two", "del_unknown", "configure", "reset", "flip", "create_p", "del_all_a_alias", "create_fail", "configure_dict", "create_r"]
-TYPES = ("a", "b", "p", "x", "r")
+OPS = ["create_a", "create_b", "create_a2", "del_oldest", "del_newest", "del_two", "del_unknown", "configure", "reset", "flip", "create_p", "del_all_a_alias", "create_fail", "configure_dict", "create_r",
+       "create_t2", "soft_reset"]
+TYPES = ("a", "b", "p", "x", "r", "t")
 STATES = ["active", "idle"]
 
 
 def gen_cases(tier, seed):
-    L = 3 if tier == "quick" else 5
+    L = 3 if tier == "quick" else 4       # (17 operations: 17^5 sequences do not fit the budget; length 5 and beyond is covered by the random part)
     cases = []
     # exhaustive part: one case per 2-op prefix, enumerating all continuations up to L
     for p in itertools.product(range(len(OPS)), repeat=2):
         cases.append(dict(kind="enum", prefix=list(p), L=L))
     rng = random.Random(77 + seed)
-    n = 2500 if tier == "quick" else 8000
+    n = 2500 if tier == "quick" else 60000
     for i in range(n):
         cases.append(dict(kind="random", seq=[rng.randrange(len(OPS)) for _ in range(rng.randint(10, 40))]))
     # the repository's own ABM tests, run with the registry / routing / statistics contracts switched on
@@ -110,6 +111,13 @@ def new_model():
         def initialize(self):
             raise KeyError("capacity")
     m.register_agent_factory("x", lambda i, mod, p: Broken(i, mod, p, "x"))
+
+    class Transient(Agent):
+        # an agent that uses the documented soft-reset hook to take itself out of the model once it is idle
+        def reset_cache(self):
+            if self.state == "idle":
+                self.model.delete_agent(self.id)
+    m.register_agent_factory("t", lambda i, mod, p: Transient(i, mod, p, "t"))
     return m
 
 
@@ -210,6 +218,20 @@ def apply(m, sh, op, counters):
     elif name == "reset":
         m.reset()
         sh.live.clear()
+    elif name == "create_t2":
+        m.create_agents({"name": "t", "count": 2})
+        new = sorted((a for a in m.agents if a.id not in before), key=lambda a: a.id)
+        if len(new) != 2:
+            return dict(kind="create_agents-count", new=[a.id for a in new])
+        new[0].state = "idle"       # (the first of the two has finished already)
+        for ag in new:
+            if ag.id in sh.issued:
+                return dict(kind="id-reused", id=ag.id)
+            sh.created(ag, "t")
+    elif name == "soft_reset":
+        m.reset_cache()             # every idle transient agent removes itself in its reset_cache() hook
+        for i in [i for i, (t, st) in sh.live.items() if t == "t" and st == "idle"]:
+            del sh.live[i]
     elif name == "flip":
         if sh.live:
             i = list(sh.live)[len(sh.live) // 2]
